@@ -162,7 +162,7 @@ def backpressure_case(args):
     site = {"view_rdh": 2, "writer": 8, "check_all": rng.choice([2, 9])}[mode]
     sched = "%d:0:%d:%d:%d" % (seed * 77 + case, site, rng.choice([300, 450]), rng.choice([3, 5]))
     r = obs.run(exe, argv, stdin_path=path if use_stdin else None, workdir=wd, stats="json", out_name=(mode == "writer"), tag="bp%d" % case,
-                env={"FASTPASTA_VERIF_SCHED": sched}, timeout=300)
+                env={"FASTPASTA_VERIF_SCHED": sched}, timeout=300, out_limit=1 << 30)
     ref_errors = None
     if mode == "check_all":
         r0 = obs.run(exe, argv, stdin_path=path if use_stdin else None, workdir=wd, stats="json", tag="bq%d" % case, timeout=300)
